@@ -38,6 +38,9 @@ func init() {
 			{ID: "C19.f", Template: "T-OWN", Required: true,
 				Doc: "Package-level variables read on the request path (trace, traceLogger, default MIME types, the compressor provider, the accessor registry, encoder hooks, DefaultContainer, the logger) have no store reachable from a request root: they are configuration, not per-request state.",
 				Run: ruleC19f},
+			{ID: "C19.g", Template: "T-TYPESTATE", Required: true,
+				Doc: "Objects shared between requests through a pool (compressors, decompressors) are used exclusively between acquire and release, released once, and not used afterwards (same obligations as C13.a): otherwise one request's output or input is another's.",
+				Run: ruleC13a},
 		},
 	})
 }
